@@ -383,6 +383,14 @@ class Interp:
             (d, s), = self.ev(f.value, s)
             assert d[0] == 'dict'
             return [(('keys', set(d[1].keys())), s)]
+        if isinstance(f, ast.Name) and f.id == 'sorted':
+            (base, s), = self.ev(n.args[0], s)
+            assert base[0] == 'pyset'
+            keyf = None
+            for kw in n.keywords:
+                if kw.arg == 'key':
+                    keyf = eval(compile(ast.Expression(kw.value), '<key>', 'eval'), {'len': len})  # spike only
+            return [(('pylist', sorted(base[1], key=keyf)), s)]
         if isinstance(f, ast.Name):
             if f.id == 'next':
                 outs = []
@@ -667,6 +675,26 @@ class Interp:
             return results
         if isinstance(n, ast.For):
             (it, s0), = self.ev(n.iter, s)
+            if it[0] == 'pylist':
+                # ordered: try elements in order; an element is reached only if all earlier ones failed
+                outs, frontier = [], [s0]
+                seen_shapes = set()
+                for p in it[1]:
+                    shape = tuple(sym_of_char(c) for c in p)
+                    if shape in seen_shapes:
+                        continue        # same category shape: abstractly identical outcome
+                    seen_shapes.add(shape)
+                    nxt = []
+                    for st in frontier:
+                        s1 = st.copy()
+                        s1.vars[n.target.id] = ('const', p)
+                        for out, s2 in self.block(n.body, s1):
+                            if out == 'next':
+                                nxt.append(st)      # condition false: window unchanged (text compare)
+                            else:
+                                outs.append((out, s2))
+                    frontier = list({x.key(): x for x in nxt}.values())
+                return outs + [('next', f) for f in frontier]
             assert it[0] == 'pyset'
             # unordered: any element may come first.  Group elements by category shape.
             shapes = {}
